@@ -8,7 +8,9 @@ use adf_bdd::adf::Adf;
 use adf_bdd::datatypes::{Term, Var};
 
 pub const CALLS: usize = 15;
-pub const CALL_NAMES: [&str; CALLS] = [
+/// the alphabet plus the enumerations that are abandoned after their first model (C11)
+pub const CALLS_EXT: usize = 19;
+pub const CALL_NAMES: [&str; CALLS_EXT] = [
     "grounded",
     "complete",
     "stable",
@@ -24,6 +26,10 @@ pub const CALL_NAMES: [&str; CALLS] = [
     "facet_count(ac)",
     "build and/or/xor/iff/imp of all pairs of acceptance conditions on adf.bdd",
     "restrict every acceptance condition by every variable and value",
+    "complete(): first model taken, the enumeration abandoned",
+    "stable(): first model taken, the enumeration abandoned",
+    "stable_with_prefilter(): first model taken, the enumeration abandoned",
+    "stable_count_optimisation_heu_a(): first model taken, the enumeration abandoned",
 ];
 
 /// what a call returned, in raw form (handles as issued)
@@ -110,6 +116,10 @@ pub fn exec(adf: &mut Adf, call: usize) -> Raw {
             }
             Raw::Handles(hs)
         }
+        15 => Raw::Models(adf.complete().take(1).collect()),
+        16 => Raw::Models(adf.stable().take(1).collect()),
+        17 => Raw::Models(adf.stable_with_prefilter().take(1).collect()),
+        18 => Raw::Models(adf.stable_count_optimisation_heu_a().take(1).collect()),
         _ => {
             let ac = adf.ac.clone();
             let mut hs = vec![];
